@@ -89,3 +89,10 @@ Theorem C16_humansize_greatest :
               forall v, representable v -> v <= n -> v <= form_value f.
 Proof. exact humansize_greatest_proof. Qed.
 Print Assumptions C16_humansize_greatest.
+
+(* the executable form of M5 that the correspondence run and the failing-input search evaluate
+   (greatest value among all 7480 documented forms, rendered) is what humansize returns *)
+Theorem C16_humansize_is_spec :
+  forall n, 0 <= n < 2 ^ 64 -> humansize_repo n = Ok (hs_format_spec n).
+Proof. exact humansize_is_spec_proof. Qed.
+Print Assumptions C16_humansize_is_spec.
